@@ -49,7 +49,8 @@ func (c *consumption) Close() error {
 
 	c.closed = true
 	vhook.At("close.flag", c)
-	c.recvQueue.Signal()
+	// 通过队列锁唤醒（Push 持锁入列并发信号），避免消费协程在检查 closed 和进入等待之间丢失信号而永久阻塞
+	c.recvQueue.Push(nil)
 	return nil
 }
 
